@@ -630,8 +630,10 @@ class WitnessGen:
         if cname in repo.classes and repo.is_subclass(cname, 'FunctionNode'):
             o['fields']['_func'] = r.choice(['builtins.dict', 'builtins.list'])
         if cname in repo.classes and repo.is_subclass(cname, 'ComposedNode'):
-            n = r.randint(0, 2) if depth > 0 else 0
             is_list = repo.is_subclass(cname, 'list')
+            # the outermost container is drawn a little larger (an element with two neighbours after it, three keys): off-by-one
+            # errors in shifting loops need that much room
+            n = r.randint(0, (4 if is_list else 3) if depth >= 2 else 2) if depth > 0 else 0
             keys = list(range(n)) if is_list else r.sample(['a', 'b', 0, 1], n)
             kids = []
             for k in keys:
